@@ -34,6 +34,8 @@ def main():
     meta = json.load(open(os.path.join(d, "meta.json")))
     prop = meta.get("property", prop)
     demo_cmd = meta["demo_cmd"].replace("$GO", GO).replace("${GO}", GO)
+    demo_cmd = re.sub(r"cd\s+/tmp/seed/wt\d+\s*&&\s*", "", demo_cmd)  # run in OUR scratch worktree
+    demo_cmd = re.sub(r"/tmp/seed/wt\d+/", "", demo_cmd)
     # deliverable files referenced by bare name live in the seed directory
     demo_cmd = re.sub(r"(?<![\w/.-])(demo[\w.-]*\.go(?:\.txt)?)", lambda m: os.path.join(d, m.group(1)), demo_cmd)
     res = {"property": prop, "source_dir": d, "tier": tier}
